@@ -65,13 +65,26 @@ def build(top, ctx):
 
     def common_job_kwds(node):
         crit = node['critical']
-        if node.get('crit_method'):
-            crit = not crit         # is_critical() is overridden: workload.py
+        if node.get('crit_method') or node.get('crit_late'):
+            # is_critical() is overridden / the attribute is assigned once the
+            # run has begun: workload.py
+            crit = not crit
         return dict(forever=node['forever'], critical=crit)
 
     def make_job(node, **kwds):
         cls = w.SimJob if node['cls'] == 'abstract' else w.SimCoroJob
         return cls(ctx, node, **common_job_kwds(node), **kwds)
+
+    def shaped(node, objs):
+        # the shapes a requirement argument may take
+        shape = node.get('req_shape')
+        if shape == 'bare' and len(objs) == 1:
+            return objs[0]
+        if shape == 'iter':
+            return (obj for obj in objs)        # can be walked only once
+        if shape == 'nested':
+            return [tuple(objs[:1]), None, set(objs[1:])]
+        return objs
 
     def make(node, is_top, **kwds):
         if not is_sched(node):
@@ -106,8 +119,8 @@ def build(top, ctx):
             # members first (edges go from lower to higher index)
             objs = []
             for i, m in enumerate(members):
-                objs.append(make(m, False,
-                                 required=[objs[a] for a in reqs[i]]))
+                objs.append(make(m, False, required=shaped(
+                    m, [objs[a] for a in reqs[i]])))
             return _late(cls(*objs, ctx=ctx, spec=node, **sk, **jk), late)
         if style == 'sequence':
             objs = [make(m, False) for m in members]
@@ -122,7 +135,8 @@ def build(top, ctx):
             # requirements afterwards, in various argument shapes
             for i, obj in enumerate(objs):
                 if reqs[i]:
-                    obj.requires([objs[a] for a in reqs[i]])
+                    obj.requires(shaped(members[i],
+                                        [objs[a] for a in reqs[i]]))
             for i, obj in enumerate(objs):
                 if i % 2:
                     sched.add(obj)
@@ -132,8 +146,8 @@ def build(top, ctx):
                     sched.update([obj])
         else:                                           # scheduler_kw
             for i, m in enumerate(members):
-                objs.append(make(m, False, scheduler=sched,
-                                 required=tuple(objs[a] for a in reqs[i])))
+                objs.append(make(m, False, scheduler=sched, required=shaped(
+                    m, tuple(objs[a] for a in reqs[i]))))
         return sched
 
     obj = make(top, True)
